@@ -180,14 +180,14 @@ constexpr bool SetsInsideF(Src s) {
 
 enum class Sink : std::uint8_t { Get, WaitTouch, Detach, DetachInline, DetachOn, DetachInherit, kCount };
 const char* kSinkNames[] = {"Get", "Wait+Touch", "Detach()", "DetachInline(f)", "Detach(e,f)", "FutureOn::Detach(f)"};
-enum class Start : std::uint8_t { ToFutureGet, ToFutureOnGet, Get, Detach, DetachOn, AsInnerTask, DropUnstarted, CoAwait, AwaitKeep, AwaitTake, kCount };
+enum class Start : std::uint8_t { ToFutureGet, ToFutureOnGet, Get, Detach, DetachOn, AsInnerTask, DropUnstarted, CoAwait, AwaitKeep, AwaitTake, Cancel, kCount };
 constexpr bool StartsThroughHere(Start s) {
   // the head is started by its consumer calling Here()/Next() on it (see the known finding D3)
   return s == Start::AsInnerTask || s == Start::CoAwait || s == Start::AwaitKeep || s == Start::AwaitTake;
 }
 const char* kStartNames[] = {"ToFuture().Get", "ToFuture(e).Get", "Get", "Detach()", "Detach(e)", "returned from an eager callback", "dropped unstarted",
                              "co_await in a coroutine", "co_await Await(task), Touch const&, destroy the completed task",
-                             "co_await Await(task), Touch&&"};
+                             "co_await Await(task), Touch&&", "Cancel()"};
 
 // executors: index -> what the proxy wraps
 enum Ex : std::uint8_t { kExInline = 0, kExPool = 1, kExStrand = 2, kExStopped = 3, kExPool2 = 4, kExManual = 5, kExCount = 6 };
@@ -1207,6 +1207,10 @@ class Case final : public sim::CaseBase {
       case Start::AwaitTake:
         Final<V>(AwaitLvalue<V>(std::move(t), true).Get(), "Get of a coroutine that did co_await Await(task) and moved Touch() out");
         break;
+      case Start::Cancel:
+        SIM_FAULT("task_cancelled");
+        std::move(t).Cancel();
+        break;
       default: {
         SIM_FAULT("task_dropped_unstarted");
         auto dead = std::move(t);
@@ -1431,7 +1435,7 @@ class Case final : public sim::CaseBase {
       if (p.start == Start::ToFutureOnGet || p.start == Start::DetachOn) {
         cur_exec = p.start_exec;
         cur_proxied = true;
-      } else if (p.start == Start::DropUnstarted) {
+      } else if ((p.start == Start::DropUnstarted || p.start == Start::Cancel)) {
         cur_exec = kExStopped;
         cur_proxied = false;  // the library's own stopped inline executor
         never_started = true;
@@ -1518,7 +1522,7 @@ class Case final : public sim::CaseBase {
       } else if (p.sink == Sink::DetachInline) {
         m.invoked.push_back(Invocation{-2, m.final, -1, 0});
       }
-    } else if (p.start == Start::Detach || p.start == Start::DetachOn || p.start == Start::DropUnstarted) {
+    } else if (p.start == Start::Detach || p.start == Start::DetachOn || (p.start == Start::DropUnstarted || p.start == Start::Cancel)) {
       m.final_observable = false;
     }
     return m;
